@@ -36,20 +36,38 @@ def random_shape(ctx, name, max_files, max_stmts, *stream):
     return L.make_shape(name, sizes, rnd=rnd)
 
 
-def rev_after_recording(shape, fi, si):
-    """Hook point (none-mode, fresh database) right after the revision write that records statement si
-    (0-based) of file fi: the kill there leaves file fi applied si+1 of n and nothing in flight."""
-    n = 0
-    for i, f in enumerate(shape["files"]):
-        if f.get("skipped"):
+def after_stmt(k):
+    """Symbolic first kill: right after the revision write that records the k-th executed statement of a none-mode
+    run on a fresh database (nothing in flight: the file is left applied i of n). Which `rev.after:<n>` that is, is
+    read from the OBSERVED trace of that run - the number of revision writes is not the monitor's business."""
+    return {"via": "hook", "global": "none", "after_stmt": k}
+
+
+def resolve_prefix(ctx, cfg, base):
+    """Turn symbolic first kills into concrete hook points using the observed reference trace of the same shape
+    on a fresh database. Returns an error string when that is impossible."""
+    for k in cfg["prefix"]:
+        if "at" in k:
             continue
-        n += 1  # initial write
-        for j in range(len(f["stmts"])):
-            n += 1
-            if (i, j) == (fi, si):
-                return "rev.after:%d" % n
-        n += 1  # deferred write
-    raise ValueError("no such statement")
+        mode = k.get("global") or cfg["global"]
+        ref = base.get((L.shape_sig(cfg["shape"]), mode, cfg["params"]))
+        if ref is None or not ref["trace"]:
+            return "no observed trace of the fresh %s-mode run to place the first kill" % mode
+        tr = ref["trace"]
+        if "after_stmt" in k:
+            want = "stmt.after %d" % k["after_stmt"]
+            i = tr.index(want) if want in tr else -1
+            nxt = next((p for p in tr[i + 1:] if p.startswith("rev.after ")), None) if i >= 0 else None
+            if nxt is None:
+                return "no revision write observed after %s" % want
+            k["at"] = nxt.replace(" ", ":")
+        else:
+            pts = list(dict.fromkeys(tr))
+            pick = ctx.rand("double", mode).sample(pts, min(k["of"], len(pts)))
+            if k["sample"] >= len(pick):
+                return "trace too short for the seeded first kill"
+            k["at"] = pick[k["sample"]].replace(" ", ":")
+    return None
 
 
 def plan(ctx):
@@ -57,10 +75,10 @@ def plan(ctx):
     (building the start state) + whether the strace injector is used on it."""
     cfgs = []
 
-    def add(shape, modes=MODES, prefix=(), params="", strace=False, tag=""):
+    def add(shape, modes=MODES, prefix=(), params="", strace=False, tag="", ref_only=False):
         for m in modes:
-            cfgs.append({"shape": shape, "global": m, "params": params, "prefix": list(prefix), "strace": strace,
-                         "tag": tag or "fresh"})
+            cfgs.append({"shape": shape, "global": m, "params": params, "prefix": [dict(k) for k in prefix], "strace": strace,
+                         "tag": tag or "fresh", "ref_only": ref_only})
 
     a = L.make_shape("A", [3, 2], kinds=["DID", "II"])
     # single-statement files (first / middle / last; a lone INSERT is the only shape in which "the statement and
@@ -83,7 +101,8 @@ def plan(ctx):
         add(L.relaxed(s1, "Sn"), modes=("none",))
         add(s2, modes=("file", "all"))
         # the kinds thorough enumerates in more variants: partial start, directives, WAL
-        add(pz, prefix=[{"via": "hook", "at": rev_after_recording(pz, 1, 0), "global": "none"}], tag="partial-start")
+        add(pz, modes=("none",), ref_only=True)  # only to observe where the first kill has to go
+        add(pz, prefix=[after_stmt(3)], tag="partial-start")
         add(L.make_shape("Dn", [2, 1, 2], directives={1: "none"}), modes=("file",), tag="directive")
         add(L.make_shape("DfL", [2, 2, 1], directives={2: "file"}), modes=("none",), tag="directive")
         add(L.make_shape("DfM", [2, 1, 2], directives={1: "file"}), modes=("none",), tag="directive")
@@ -110,16 +129,16 @@ def plan(ctx):
     add(L.make_shape("Dsame", [2, 2], directives={0: "file", 1: "file"}), modes=("file",), tag="directive")
     # an already partially applied start state: a none-mode run killed right after a revision write
     p = L.make_shape("P", [2, 3], kinds=["DI", "IDI"])
-    add(p, prefix=[{"via": "hook", "at": rev_after_recording(p, 1, 0), "global": "none"}], tag="partial-start", strace=True)
-    add(p, prefix=[{"via": "hook", "at": rev_after_recording(p, 0, 0), "global": "none"}], tag="partial-start")
+    add(p)
+    add(p, prefix=[after_stmt(3)], tag="partial-start", strace=True)
+    add(p, prefix=[after_stmt(1)], tag="partial-start")
     p2 = L.make_shape("P2", [1, 4, 1], kinds=["D", "IIDI", "I"])
-    add(p2, prefix=[{"via": "hook", "at": rev_after_recording(p2, 1, 2), "global": "none"}], tag="partial-start")
+    add(p2, modes=("none",), ref_only=True)
+    add(p2, prefix=[after_stmt(4)], tag="partial-start")
     # two kills in a row in the same mode (seeded first kill, every point for the second)
     for m in MODES:
-        exp = L.expected_trace(a, m, L.observe(a, None))
-        rnd = ctx.rand("double", m)
-        for at in rnd.sample(exp, 4):
-            add(a, modes=(m,), prefix=[{"via": "hook", "at": at.replace(" ", ":")}], tag="double-kill")
+        for i in range(4):
+            add(a, modes=(m,), prefix=[{"via": "hook", "sample": i, "of": 4}], tag="double-kill")
     # write-ahead log instead of the rollback journal
     add(a, params="_journal_mode=WAL", tag="wal", strace=True)
     return cfgs
@@ -264,6 +283,11 @@ def main():
         cfg["ref"] = steps[-1]
         cfg["ref_ok"] = steps[-1]["kind"] == "reference" and steps[-1]["rc"] == 0 and not vd.broken
         cfg["ref_clean"] = cfg["ref_ok"] and not vd.violations
+        if vd.trace_deviation:
+            ctx.count("reference-runs-whose-trace-differs-from-the-documented-sequence(evidence-only)")
+        if vd.model_mismatch and cfg["ref_clean"]:
+            with ctx.lock:
+                broken.append("%s: %s" % (cfg_name(cfg), vd.model_mismatch))
         ctx.count("reference-runs")
         if not cfg["ref_ok"]:
             ctx.count("reference-runs-failed")
@@ -273,7 +297,19 @@ def main():
         if vd.final_state is not None:
             ctx.eval(vlib.digest("ref", cfg_name(cfg), L.brief(cfg["shape"], vd.final_state)), nontrivial=cfg["ref_ok"])
 
-    ctx.par(cfgs, reference)
+    def symbolic(cfg):
+        return any("at" not in k for k in cfg["prefix"])
+
+    later = [c for c in cfgs if symbolic(c)]
+    ctx.par([c for c in cfgs if not symbolic(c)], reference)
+    base = {(L.shape_sig(c["shape"]), c["global"], c["params"]): c["ref"] for c in cfgs
+            if not c["prefix"] and c.get("ref") and c["ref"]["kind"] == "reference"}
+    for c in later:
+        why = resolve_prefix(ctx, c, base)
+        if why:
+            broken.append("%s/%s/%s: %s" % (L.shape_sig(c["shape"]), c["global"], c["tag"], why))
+    cfgs = [c for c in cfgs if not symbolic(c)]
+    ctx.par([c for c in later if not symbolic(c)], reference)
 
     # ---- phase 2: one case per reached point (+ seeded strace kills) ----
     cases = []
@@ -282,10 +318,8 @@ def main():
         if not cfg["ref_ok"] and not (ref["kind"] == "reference" and ref["trace"]):
             continue  # reported above (violation or broken); no point list to enumerate
         # a reference run that FAILED (reported above) still lists the points it reached: they are killed at too
-        start = L.observe(cfg["shape"], ref["before"])
-        exp = L.expected_trace(cfg["shape"], cfg["global"], start)
-        if cfg["ref_clean"] and len(set(ref["trace"])) < len(exp):
-            broken.append("%s: %d distinct points reached, %d expected" % (cfg_name(cfg), len(set(ref["trace"])), len(exp)))
+        if cfg["ref_only"]:
+            continue
         m = cfg["global"]
         stats["points"][m] = stats["points"].get(m, 0) + len(set(ref["trace"]))
         stats["names"].setdefault(m, set()).update(p.split()[0] for p in ref["trace"])
@@ -388,7 +422,7 @@ def main():
     }
     ctx.finish("per kill: revision never claims an absent effect; file/all mode atomic per transaction; after the re-run exit 0, "
                "all revisions complete, every effect exactly once (file/all) or at most the in-flight statement twice (none); "
-               "hook trace equals the documented order on every run", extra)
+               "crash points = every occurrence of every hook point the OBSERVED reference run passes; number/order of rev.*/commit.* points is evidence, not a verdict", extra)
     if ctx.violations():
         sys.exit(1)
     if broken:
